@@ -1121,8 +1121,8 @@ impl Prop for C17 {
     }
     fn runs(&self, tier: Tier) -> u64 {
         match tier {
-            Tier::Quick => 120_000,
-            Tier::Thorough => 6_000_000,
+            Tier::Quick => 200_000,
+            Tier::Thorough => 8_000_000,
         }
     }
 
